@@ -232,13 +232,21 @@ func c11Serve(p *Prog, r *Report) {
 			for _, in := range b.Instrs {
 				if st, ok := in.(*ssa.Store); ok {
 					if _, f, _, ok := fieldOf(st.Addr); ok && f == "URL" {
-						v := stripConv(st.Val)
-						if c, ok := v.(*ssa.Call); ok && isCopyURLCall(p, c) {
-							v = stripConv(c.Common().Args[0])
+						ops := nonNilOperands(st.Val)
+						isPin, allCopies := len(ops) > 0, true
+						for _, v := range ops {
+							if c, ok := v.(*ssa.Call); ok && isCopyURLCall(p, c) {
+								v = stripConv(c.Common().Args[0])
+							} else {
+								allCopies = false
+							}
+							if !resultValue(getB, 0)(v) {
+								isPin = false
+							}
 						}
-						if resultValue(getB, 0)(v) {
+						if isPin {
 							pinStore = st
-							r.Check(isCopyURLCall(p, st.Val), "C11.R3", sn+": the pinned request gets a copy of the member's URL", p.InstrPos(st), "utils.CopyURL(cookieURL)",
+							r.Check(allCopies, "C11.R3", sn+": the pinned request gets a copy of the member's URL", p.InstrPos(st), "utils.CopyURL(cookieURL)",
 								"the pinned request carries the pool member's own URL object: a downstream rewrite of req.URL changes the member, its cookie stops matching and the client is re-balanced on the next request")
 						}
 					}
